@@ -117,6 +117,18 @@ def setup_env() -> None:
         sys.path.insert(0, VERIF_DIR)
 
 
+def limit_memory(gb: float = 28.0) -> None:
+    """cap the address space of a worker so that a runaway allocation in the code under test (e.g. an
+    unbounded dimension search) fails inside that worker instead of getting the whole run OOM-killed"""
+    try:
+        import resource
+
+        lim = int(gb * 2**30)
+        resource.setrlimit(resource.RLIMIT_AS, (lim, lim))
+    except Exception:
+        pass
+
+
 def setup_jax() -> None:
     import warnings
 
@@ -218,6 +230,7 @@ def worker(args: dict) -> dict:
     )
     try:
         setup_jax()
+        limit_memory(float(os.environ.get("PW_VERIF_MEM_GB", "28")))
         import hypothesis
         from hypothesis import HealthCheck, Phase, given, settings
 
@@ -363,6 +376,65 @@ def _replay_worker(args):
 
 
 # --------------------------------------------------------------------------------------
+# process management: one process per shard, results over pipes, dead workers are noticed
+# --------------------------------------------------------------------------------------
+def _child(fn_name: str, arg, conn):
+    try:
+        res = globals()[fn_name](arg)
+    except BaseException:  # noqa: BLE001
+        res = dict(error="worker raised: " + traceback.format_exc()[-3000:], died=True)
+    try:
+        conn.send(res)
+    finally:
+        conn.close()
+
+
+def run_processes(ctx, fn_name: str, args: List[Any], timeout_s: float) -> List[Any]:
+    """run fn_name(arg) for every arg in its own spawned process; a process that dies without an answer
+    (e.g. killed by the OOM killer) yields {'error': ..., 'died': True} instead of hanging the run"""
+    procs = []
+    for a in args:
+        parent, child = ctx.Pipe(duplex=False)
+        p = ctx.Process(target=_child, args=(fn_name, a, child))
+        p.start()
+        child.close()
+        procs.append((p, parent))
+    results: List[Any] = [None] * len(args)
+    t_end = time.time() + timeout_s
+    pending = set(range(len(args)))
+    while pending:
+        for i in list(pending):
+            p, conn = procs[i]
+            got = False
+            try:
+                if conn.poll(0.05):
+                    results[i] = conn.recv()
+                    got = True
+            except (EOFError, OSError):
+                pass
+            if got:
+                pending.discard(i)
+                p.join(10)
+            elif not p.is_alive():
+                # one last look: the answer may have arrived just before exit
+                try:
+                    if conn.poll(0.2):
+                        results[i] = conn.recv()
+                        got = True
+                except (EOFError, OSError):
+                    pass
+                if not got:
+                    results[i] = dict(error=f"worker process died without a result (exit code {p.exitcode})", died=True, shard=i)
+                pending.discard(i)
+        if time.time() > t_end:
+            for i in pending:
+                procs[i][0].kill()
+                results[i] = dict(error="worker exceeded the run's wall-clock limit and was killed", died=True, shard=i)
+            break
+    return results
+
+
+# --------------------------------------------------------------------------------------
 # main entry
 # --------------------------------------------------------------------------------------
 def write_evidence(prop, tier, seed, level, coverage, assumptions, wall, violations):
@@ -403,8 +475,9 @@ def main(argv=None) -> int:
         with open(a.replay) as f:
             data = json.load(f)
         case = data["case"] if isinstance(data, dict) and "case" in data else data
-        with ctx.Pool(1) as pool:
-            res = pool.map(_replay_worker, [(prop, case)])[0]
+        res = run_processes(ctx, "_replay_worker", [(prop, case)], 1800)[0]
+        if res.get("died"):
+            res = dict(status="error", message=res["error"])
         if res["status"] == "violation":
             print(res["message"])
             print(f"VIOLATION property={prop} replay={a.replay}")
@@ -428,8 +501,8 @@ def main(argv=None) -> int:
     active = []
     known_lines = []
     if known:
-        with ctx.Pool(min(len(known), a.nproc)) as pool:
-            res = pool.map(_replay_worker, [(prop, e["witness"]) for e in known])
+        res = run_processes(ctx, "_replay_worker", [(prop, e["witness"]) for e in known], 1800)
+        res = [dict(status="error", message=r["error"]) if r.get("died") else r for r in res]
         for e, r in zip(known, res):
             if r["status"] == "violation":
                 active.append(e)
@@ -446,8 +519,14 @@ def main(argv=None) -> int:
     per = [n_total // nshards + (1 if i < n_total % nshards else 0) for i in range(nshards)]
     jobs = [dict(prop=prop, tier=a.tier, seed=seed, shard=i, nshards=nshards, n_examples=per[i], active_known=active)
             for i in range(nshards)]
-    with ctx.Pool(nshards) as pool:
-        results = pool.map(worker, jobs)
+    limit = float(os.environ.get("PW_VERIF_WALL_S", "3000" if a.tier == "quick" else "14400"))
+    raw = run_processes(ctx, "worker", jobs, limit)
+    results = []
+    for i, r in enumerate(raw):
+        if r.get("died"):
+            r = dict(shard=i, evaluations=0, nontrivial_keys=[], labels={}, samples=[], failures=[], known_hits={}, timeouts=0,
+                     dup_bucket=0, error=r["error"], wall=0.0)
+        results.append(r)
 
     errors = [r for r in results if r["error"]]
     evaluations = sum(r["evaluations"] for r in results)
